@@ -119,9 +119,11 @@ CLAIMED = {
         "Lean 4 invariant proofs over a transition system of caller / print thread / sender thread / reader thread / device (13 "
         "actions, write() split into its real steps) for every interleaving + differential correspondence against the real "
         "threaded SerialWriter/SocketWriter with harness-controlled replies and injected delays",
-        "Proof: C16_order_once, C16_sync_partial, C16_sync, C16_single_probe_no_backlog, C16_sync_single_probe, "
-        "C16_error_surfaces, C16_no_spurious_error, C16_connect_clean, C16_disconnect_wait for every action list; the residual "
-        "handshake-backlog defect is a recorded finding with two decide witnesses.",
+        "Proof: C16_order_once, C16_sync_partial, C16_sync, C16_single_probe_clean, C16_sync_single_probe, "
+        "C16_error_surfaces, C16_unsolicited_error_surfaces, C16_error_line_is_due, C16_no_spurious_error, C16_connect_clean, "
+        "C16_disconnect_wait for every action list (sync theorems under the ghost flags backlog = false and surplusHit = false); "
+        "the two residual defects (handshake backlog, surplus flag-setting line read inside a write) are recorded findings "
+        "with decide witnesses replayed every run.",
         "Trusted: as C15. Out of scope: Grbl greeting, Resend lines mid-session, writes after a socket loss (liveness).",
         "DESIGN.md section 7 / C16",
     ),
